@@ -415,13 +415,24 @@ def qx2(ctx):
             continue
         gates = gate_calls(ctx, b)
         logs = [cs.point for cs in log_sites(ctx, b)]
+        cands = []
+        seen_c = set()
         for e in b.exits():
             if e['kind'] == 'err_prop':
-                c = e.get('call')
+                # several `?` of inlined helpers can share one propagating exit: each call behind it is an origin
+                cs_ = list(e.get('calls') or []) or [e.get('call')]
+                if e.get('call') is not None and e.get('call') not in cs_:
+                    cs_.append(e.get('call'))
             elif e['kind'] == 'err':
-                c = b.err_exit_origin(e)      # explicit `match .. { Err(x) => return Err(Conv(x)) }`
+                cs_ = [b.err_exit_origin(e)]      # explicit `match .. { Err(x) => return Err(Conv(x)) }`
             else:
                 continue
+            for c in cs_:
+                if c is None or not hasattr(c, 'node') or id(c) in seen_c:
+                    continue
+                seen_c.add(id(c))
+                cands.append((e, c))
+        for (e, c) in cands:
             if c is None or not hasattr(c, 'node') or c.node is None or not ctx.E.call_may(c, 'MEM'):
                 continue
             dl = c.dest_local()
